@@ -222,12 +222,18 @@ def gen_sampling(rng, n, bs, allow_bad):
         return False, list(bad_ix), None
     if k == "sampler":
         m = rng.randint(0, n + 3)
-        kind = rng.pick(["any", "any", "perm", "rev"])
+        kind = rng.pick(["any", "any", "perm", "rev", "long", "masklike"])
         if kind == "perm" and n > 0:
             idx = list(range(n))
             rng.shuffle(idx)
         elif kind == "rev":
             idx = list(range(n))[::-1]
+        elif kind == "long" and n > 0:
+            idx = [rng.randint(0, hi) for _ in range(rng.randint(n + 1, 2 * n + 2))]     # repeats, longer than n
+        elif kind == "masklike" and n >= 2:
+            idx = [rng.randint(0, 1) for _ in range(n)]       # looks like a 0/1 mask of length n; it is a list of rows
+            if len(set(idx)) == 1:
+                idx[0] = 1 - idx[0]
         else:
             idx = [rng.randint(0, hi) for _ in range(m)]
         if bad_ix:
@@ -235,6 +241,8 @@ def gen_sampling(rng, n, bs, allow_bad):
         return False, idx, None
     nb = rng.randint(0, 4)
     bss = [[rng.randint(0, hi) for _ in range(rng.randint(0, 3))] for _ in range(nb)]
+    if n >= 2 and rng.chance(0.5):
+        bss.insert(rng.randint(0, len(bss)), [rng.randint(0, 1) for _ in range(n)])        # a mask-like batch
     if bad_ix:
         bss.insert(rng.randint(0, len(bss)), [rng.randint(0, hi), bad_ix[0]])
     return False, None, bss
@@ -270,12 +278,14 @@ TORCH_PARAMS = ["batch_size", "shuffle", "sampler", "batch_sampler", "num_worker
                 "drop_last", "timeout", "worker_init_fn", "multiprocessing_context", "generator"]
 TORCH_KWONLY = ["prefetch_factor", "persistent_workers", "pin_memory_device", "in_order"]
 SAMPLER_FORMS = ["list", "object", "tuple", "numpy", "tensor", "generator"]
-DIRECT_FORMS = ["list", "range", "slice", "tensor", "int"]
+DIRECT_FORMS = ["list", "range", "slice", "tensor", "int", "masklist"]
 
 
 def gen_case(rng, n=None, bs=None, src=None, shuffle=None, drop_last=None, plain=False, positional=None):
     n = rng.wpick([(1, 0), (1, 1), (2, 2), (2, 3), (6, rng.randint(4, 12))]) if n is None else n
-    bs = rng.randint(1, n + 1) if bs is None else bs
+    if bs is None:
+        # boundaries of batch_size against the number of rows on purpose: n-1, n, n+1, 2n (and 1)
+        bs = rng.pick([1, max(1, n - 1), max(1, n), n + 1, max(1, 2 * n)]) if rng.chance(0.4) else rng.randint(1, n + 1)
     src = rng.wpick([(6, "tf"), (2, "ds"), (2, "ds_unmat")]) if src is None else src
     bad = (not plain) and rng.chance(0.15)
     if plain:
@@ -576,7 +586,10 @@ def run(case):
         ix, pos = {"list": (idx, idx), "range": (range(lo, hi), list(range(lo, hi))),
                    "slice": (slice(lo, hi), list(range(lo, hi))),
                    "tensor": (torch.tensor(idx, dtype=torch.long), idx),
-                   "int": (lo % m if m else 0, [lo % m] if m else [])}[form]
+                   "int": (lo % m if m else 0, [lo % m] if m else []),
+                   # a list of 0/1 ints of length n is a list of row positions, not a mask
+                   "masklist": ([(case["seed"] >> k) & 1 for k in range(m)] if m >= 2 else idx,
+                                [(case["seed"] >> k) & 1 for k in range(m)] if m >= 2 else idx)}[form]
         rec = {"form": form, "rows": pos}
         try:
             rec["batch"] = read_batch(loader.collate_fn(ix))
@@ -852,6 +865,27 @@ def stats(cases, obss):
             n == 0 and c["shuffle"] and k == "shuffle" and not c.get("positional_shuffle"))
         d["empty_shuffle_positional"] = d.get("empty_shuffle_positional", 0) + bool(
             n == 0 and c["shuffle"] and k == "shuffle" and c.get("positional_shuffle"))
+        bd = d.setdefault("boundary", {})
+
+        def hit(key):
+            bd[key] = bd.get(key, 0) + 1
+        m_ = eff_n(c)
+        if c["batch_sampler"] is None and m_ >= 1:
+            for name, val in (("bs=1", 1), ("bs=n-1", m_ - 1), ("bs=n", m_), ("bs=n+1", m_ + 1), ("bs=2n", 2 * m_)):
+                if bs == val and val >= 1:
+                    hit(name)
+            if bs < m_ and m_ % bs == 1 and k in ("sequential", "shuffle"):
+                hit("last_batch_of_1" + (":dropped" if c["drop_last"] else ""))
+        if m_ in (1, 2):
+            hit(f"rows={m_}")
+        masklike = lambda l: len(l) == m_ and m_ >= 2 and set(l) <= {0, 1}  # noqa: E731
+        if c["sampler"] is not None:
+            if len(c["sampler"]) > m_ > 0 and all(i < m_ for i in c["sampler"]):
+                hit("sampler_longer_than_n")
+            if masklike(c["sampler"]):
+                hit("sampler_masklike")
+        if c["batch_sampler"] is not None and any(masklike(b) for b in c["batch_sampler"]):
+            hit("batch_masklike")
         adesc, kdesc = call_desc(c)
         forms = d.setdefault("call_forms", {})
 
@@ -928,6 +962,10 @@ def sanity(cases, obss):
     for k in need:
         if not d.get("call_forms", {}).get(k):
             probs.append(f"argument form {k} never drawn")
+    for k in ("bs=1", "bs=n-1", "bs=n", "bs=n+1", "bs=2n", "last_batch_of_1", "last_batch_of_1:dropped", "rows=1",
+              "rows=2", "sampler_longer_than_n", "sampler_masklike", "batch_masklike"):
+        if not d.get("boundary", {}).get(k):
+            probs.append(f"boundary {k} never drawn")
     # the parameter list the call-level Coq model binds positional arguments to must be the live one
     import inspect
     live = [p_ for p_ in inspect.signature(torch.utils.data.DataLoader.__init__).parameters][2:]
